@@ -95,13 +95,17 @@ theorem InvK.opLock {db : DB} (ha : InvA db) (hk : InvK db) (c : Cmd) : InvK (op
           (by intro hh; rw [pushJ_noack_jc _ _ _ _ (noAck_ack _), hju] at hh; omega)
       · exact h2.finishN ⟨by rw [g3]; exact hkr.1, by intro _ hh; rw [g6] at hh; exact absurd hh (by decide)⟩ (fp_false_of_expried g6)
           (by intro hh; rw [hju] at hh; omega)
+    have hrl : InvK (db.relockHold c h) := by
+      unfold DB.relockHold
+      simp only []
+      split
+      · rename_i fr _
+        exact (hfin _ _ (h1.modKey c.key (fun k => { k with cell := some (applyFrame k.cell fr).1 })) rfl hne
+          (by rw [jc_of_journal (db := db) (by simp)]; exact hjz)).ctrMod _
+      · exact (hfin _ _ h1 rfl hne (by rw [jc_of_journal (db := db) (by simp)]; exact hjz)).ctrMod _
     unfold applyLock
     simp only []
-    split
-    · rename_i fr _
-      exact (hfin _ _ (h1.modKey c.key (fun k => { k with cell := some (applyFrame k.cell fr).1 })) rfl hne
-        (by rw [jc_of_journal (db := db) (by simp)]; exact hjz)).ctrMod _
-    · exact (hfin _ _ h1 rfl hne (by rw [jc_of_journal (db := db) (by simp)]; exact hjz)).ctrMod _
+    exact InvK.wake (ha.relockHold c h (classifyLock_relock ha e)) hrl _ _
   | grant =>
     obtain ⟨r0, f0, f1, f2, f3, f4, f5, f6⟩ := newRec_findR ha c
     have h1 : InvK ((db.newRec c).1.grant (db.newRec c).2).1 := InvK.grant (ha.newRec c) (InvK.newRec ha hk c) _ f0 (by rw [f4]; exact Nat.le_refl _)
